@@ -244,6 +244,11 @@ func run(id, tier, only, repo, verifDir, solver string, verbose, noReplay bool, 
 			outcome := "skipped"
 			if !noReplay {
 				outcome = nativeReplay(verifDir, repo, id, hfs, f, rp, verbose)
+				// goroutines started by the code under test run freely in a native
+				// replay: give timing-dependent counterexamples two more chances
+				for try := 0; try < 2 && !replayMatches(f, outcome) && len(f.Schedule) > 0; try++ {
+					outcome = nativeReplay(verifDir, repo, id, hfs, f, rp, verbose)
+				}
 			}
 			reproduced := replayMatches(f, outcome)
 			note := fmt.Sprintf("%s kind=%s label=%q native=%q reproduced=%v replay=%s", f.Harness, f.Kind, f.Label, outcome, reproduced, rp)
